@@ -344,6 +344,60 @@ class Runner:
         return res
 
 
+def run_history_beside_parked_thread(h):
+    """The history runs in a fresh thread B while another thread A, abandoned as after a timeout
+    (tracer.stop()), is parked inside a predicate callback (inside temporarily_disable); then A
+    leaves the callback and the history runs once more in a third thread C.
+    -> (hist_B, hist_C) or None if A could not be parked."""
+    import threading
+
+    runner = Runner()
+    tr = runner.tr
+    inside, gate = threading.Event(), threading.Event()
+
+    class Parked:
+        __hash__ = None
+
+        def __eq__(self, other):
+            inside.set()
+            gate.wait(120)
+            return True
+
+    def thread_a():
+        try:
+            with tr:
+                tr.executed_compare_predicate(Parked(), 0, 99, runner.PC.EQ)
+        except BaseException:  # noqa: BLE001
+            pass
+
+    def in_thread(box):
+        def body():
+            try:
+                box.append(runner.run_history(h))
+            except BaseException as e:  # noqa: BLE001
+                box.append(e)
+        t = threading.Thread(target=body, daemon=True)
+        t.start()
+        t.join(120)
+
+    a = threading.Thread(target=thread_a, daemon=True)
+    a.start()
+    if not inside.wait(30):
+        gate.set()
+        return None
+    tr.stop()                      # what TestCaseExecutor.execute does with a timed-out thread
+    box_b: list = []
+    in_thread(box_b)
+    gate.set()
+    a.join(60)
+    box_c: list = []
+    in_thread(box_c)
+    for box in (box_b, box_c):
+        if not box or isinstance(box[0], BaseException):
+            raise RuntimeError(f"history thread failed: {box}")
+    return box_b[0], box_c[0]
+
+
 def c_ev(e):
     if e[0] == "Line":
         return f"(C05.Line {cZ(e[1])})"
@@ -386,7 +440,18 @@ HANDLERS = ["Exception", "ValueError",
 
 def sut_source():
     lines = [
+        "import threading",
         "from decimal import Decimal",
+        "",
+        "GATE = threading.Event()",
+        "",
+        "",
+        "class Slow:",
+        "    __hash__ = None",
+        "",
+        "    def __eq__(self, other):",
+        "        GATE.wait(300)",
+        "        return False",
         "",
         "",
         "class Abort(BaseException):",
@@ -485,6 +550,7 @@ class Pipeline:
             self.module = importlib.import_module(self.modname)
             importlib.reload(self.module)
         self.executor = TestCaseExecutor(self.sp, maximum_test_execution_timeout=600, test_execution_time_per_statement=120)
+        self.short_executor = TestCaseExecutor(self.sp, maximum_test_execution_timeout=2, test_execution_time_per_statement=2)
         self.switch_log: list = []
         tr = self.sp.instrumentation_tracer
         orig = self.executor._exec_statement
@@ -522,6 +588,30 @@ class Pipeline:
         preds = {self.sp.existing_predicates[p].line_no: c for p, c in tr.executed_predicates.items()}
         return {"lines": lines, "preds": preds, "switch": list(self.switch_log)}
 
+    def time_out_inside_callback(self):
+        """A test case whose traced `==` blocks inside the tracer's own evaluation (inside
+        temporarily_disable) until the executor gives up and abandons the thread.  -> timed out?"""
+        import libcst as cst
+        import pynguin.testcase.testcase as tc
+
+        t = tc.TestCase()
+        t.add_statement(tc.Statement(node=cst.parse_module("v0 = cmp_eq(Slow(), 1)\n").body[0], bound_variable="v0", bound_type=None))
+        res = self.short_executor.execute(t)
+        return bool(res.timeout)
+
+    def release_abandoned(self):
+        import threading
+        import time
+
+        before = threading.active_count()
+        self.module.GATE.set()
+        for _ in range(100):
+            if threading.active_count() < before or threading.active_count() <= 1:
+                break
+            time.sleep(0.1)
+        time.sleep(0.2)
+        self.module.GATE.clear()
+
     def plain_path(self, call):
         try:
             return eval(call, dict(self.plain)) % 10  # noqa: S307
@@ -552,6 +642,32 @@ def check_scenario(pl, sc):
             hl = pl.handler_lines[fn]
             if hl not in full["lines"] or (hl + 1) not in full["lines"]:
                 return ("handler-lines-lost", f"{call}: the subject caught the exception, but handler line {hl} / the line after the try block is not covered")
+    return None
+
+
+def check_after_timeout(pl, sc):
+    """The same test case before and after another test case timed out inside a tracer callback:
+    -> None | "skip" | (signature, message)"""
+    calls = sc["prefix"] + sc["suffix"]
+    before = pl.execute(calls)
+    if before is None:
+        return "skip"
+    try:
+        if not pl.time_out_inside_callback():
+            return "skip"
+        after = pl.execute(calls)
+    finally:
+        pl.release_abandoned()
+    if after is None:
+        return ("execution-fails-after-timeout", f"{calls} executes normally, but not after a test case timed out inside a tracer callback")
+    if after["switch"] != before["switch"]:
+        return ("switch-after-timeout", f"tracer disabled (before, after) per statement of {calls}: {before['switch']} normally, "
+                f"{after['switch']} after another test case timed out inside a tracer callback")
+    if after["lines"] != before["lines"] or after["preds"] != before["preds"]:
+        lost = [l for l in before["lines"] if l not in after["lines"]]
+        return ("coverage-lost-after-timeout", f"{calls}: lines {lost} and predicates "
+                f"{ {l: c for l, c in before['preds'].items() if after['preds'].get(l) != c} } are recorded normally, but not after "
+                "another test case timed out inside a tracer callback (abandoned thread inside temporarily_disable)")
     return None
 
 
@@ -676,6 +792,15 @@ def run(ctx: vlib.Ctx):
     pl = Pipeline(ctx)
     try:
         plain = run_scenarios(pl, scenarios)
+        ctx.log("pipeline oracle: test cases after a timeout inside a tracer callback")
+        n_to = {"ok": 0, "skip": 0, "fail": 0}
+        for sc in [scenarios[0]] + [gen_scenario(ctx.rng) for _ in range(1 if ctx.quick else 5)]:
+            r = check_after_timeout(pl, sc)
+            ctx.case_seen(("timeout", sc["prefix"], sc["suffix"]))
+            n_to["skip" if r == "skip" else "ok" if r is None else "fail"] += 1
+            if isinstance(r, tuple) and r[0] not in {f.signature for f in ctx.failures}:
+                ctx.fail(r[0], r[1], {"scenario": sc, "after_timeout": True, "module_source": "harness/props/C05.py:sut_source()"})
+        ctx.leg("S-timeout", **n_to)
     finally:
         pl.close()
     for name, res, scs in (("S", plain, scenarios), ("S-checked", chk, chk_scenarios)):
@@ -734,6 +859,30 @@ def run(ctx: vlib.Ctx):
                              {"history": {"enabled": h["enabled"], "top": h["top"]}, "event": e})
                 break
             prev = o[0]
+    # threads: histories in a fresh thread while an abandoned thread is parked inside a bracket
+    n_parked = 0
+    for h in hists[:len(corpus["histories"])] + [gen_history(ctx.rng) for _ in range(40 if ctx.quick else 400)]:
+        pair = run_history_beside_parked_thread(h)
+        if pair is None:
+            ctx.count("parked-thread:could-not-park")
+            continue
+        n_parked += 1
+        for which, hist in zip(("beside", "after"), pair):
+            recs.append((h, hist))
+            cases.append(c_case(fin, h, hist))
+            ctx.case_seen(("history-" + which + "-parked-thread", h["enabled"], h["top"]), nontrivial=len(h["top"]) > 0)
+            prev = h["enabled"]
+            for e, o in hist:
+                if o[0] != prev:
+                    direct += 1
+                    if "switch-with-parked-thread" not in {f.signature for f in ctx.failures}:
+                        ctx.fail("switch-with-parked-thread",
+                                 f"in a fresh thread, {which} another thread parked inside a tracer callback: after event {e} "
+                                 f"the tracer switch is {o[0]}, before it was {prev}",
+                                 {"history": {"enabled": h["enabled"], "top": h["top"]}, "event": e, "parked_thread": True})
+                    break
+                prev = o[0]
+    ctx.count("histories-beside-parked-thread", n_parked)
     ctx.sample({"history": hists[len(corpus["histories"])], "observed": [list(map(repr, o)) for _, o in recs[len(corpus["histories"])][1]]})
     ctx.cov["rule"] = ("K2: random event trees (depth <= 3; line visits, bool/==/in/exception-match predicate callbacks whose "
                        "operand runs nested events and raises with p = 0.45, nested temporarily_disable/enable blocks that "
@@ -755,8 +904,10 @@ def run(ctx: vlib.Ctx):
     elif bad is not None:
         ctx.leg("K2", ok=True, histories=len(cases), direct_switch_violations=direct)
     ctx.assumptions += [
-        "one test case runs in one thread (TracerLocalState is thread-local; TestCaseExecutor starts a fresh thread per "
-        "test case); the thread check (TracingAbortedException) that kills timed-out threads is outside the model",
+        "one test case runs in one thread with its own switch and trace (TracerLocalState is thread-local; TestCaseExecutor "
+        "starts a fresh thread per test case): modelled as threads := Z -> state, tied by replaying histories in fresh "
+        "threads beside a thread parked inside a bracket and by the timeout scenario of the pipeline oracle; the thread "
+        "check (TracingAbortedException) that kills timed-out threads is outside the model",
         "what the subject does is an arbitrary tree of events; an exception raised in traced code and caught by the "
         "subject is a callback/block flagged `raises` followed by the next events",
         "callbacks without a bracket (track_line_visit, track_generic, track_memory_access, track_attribute_access, ...) "
@@ -780,12 +931,12 @@ def replay(ctx, path):
             print("scenario:", sc)
             print("combined:", pl.execute(sc["prefix"] + sc["suffix"]))
             print("suffix alone:", pl.execute(sc["suffix"]))
-            print("oracle:", check_scenario(pl, sc))
+            print("oracle:", check_after_timeout(pl, sc) if d.get("after_timeout") else check_scenario(pl, sc))
         finally:
             pl.close()
     else:
         h = d["history"]
-        hist = Runner().run_history(h)
+        hist = run_history_beside_parked_thread(h)[0] if d.get("parked_thread") else Runner().run_history(h)
         for e, o in hist:
             print(e, "->", o)
         br, _ = read_brackets(ctx.repo)
